@@ -371,7 +371,14 @@ type Frame struct {
 	base   int // guard stack depth at entry
 	rets   []retExit
 	forks  map[*ssa.BasicBlock]int
-	defers []func()
+	defers []deferred
+}
+
+// deferred: a deferred call and the guard (relative to the frame) it was registered under. Every return path
+// runs the whole list, each call under its registration guard, so a path that did not register it skips it.
+type deferred struct {
+	g   *smt.Term
+	run func()
 }
 
 type Env map[ssa.Value]Value
@@ -570,9 +577,7 @@ func (in *Interp) runPath(fr *Frame, env Env, blk, pred, stop *ssa.BasicBlock) (
 				}
 				rv = &TupleVal{E: tv}
 			}
-			for i := len(fr.defers) - 1; i >= 0; i-- {
-				fr.defers[i]()
-			}
+			// (deferred calls have run: go/ssa emits RunDefers before every Return of a function with defers)
 			// iterator guards still pushed in this frame make the relative guard wrong
 			for i := fr.base; i < len(in.gs); i++ {
 				if in.gs[i].iter {
@@ -621,12 +626,20 @@ func (in *Interp) runPath(fr *Frame, env Env, blk, pred, stop *ssa.BasicBlock) (
 			}
 			in.Stats.Forks++
 			P := in.P.ipdom(blk)
+			if P == nil && in.P.postDominates(blk, blk.Succs[0]) && in.P.postDominates(blk, blk.Succs[1]) {
+				// the branching block is the header of an endless loop and both arms come back to it: they
+				// join there, at the start of the next iteration
+				P = blk
+			}
+			rseg := in.raceFork()
 			in.push(c)
 			exT, lostT := in.runPath(fr, copyEnv(env), blk.Succs[0], blk, P)
 			in.pop()
+			rsegT := in.raceArm(rseg)
 			in.push(in.St.Not(c))
 			exE, lostE := in.runPath(fr, env, blk.Succs[1], blk, P)
 			in.pop()
+			in.raceJoin(rseg, rsegT)
 			var all []exit
 			for _, e := range exT {
 				e.rel = in.St.And(c, e.rel)
